@@ -10,8 +10,9 @@ RULE = ('1-10 statements (bindings with scopes and dotted selectors, macro defin
         'includes, references and macros as values) rendered in two independently drawn layouts: comment placement, blank '
         'lines, backslash continuations before and after "=", spacing, flat vs block form with random indentation width '
         '(spaces or a tab), comments and blank lines between block members, CRLF line ends, form feeds, trailing newline or '
-        'not; plus a malformed-selector stream (inner whitespace, empty components, misplaced separators, continuation '
-        'inside a name). Oracle: both layouts yield the same bindings/imports/includes; malformed names are rejected. '
+        'not; names that spell a keyword (include, import, from) used as macro, selector and scope; plus a '
+        'malformed-selector stream (inner whitespace, empty components, misplaced separators, continuation '
+        'inside a name, one defect at any component of a 1-4 deep scope in bindings, macros, block headers, references). Oracle: both layouts yield the same bindings/imports/includes; malformed names are rejected. '
         'non-trivial = at least one block or continuation in one layout, or a malformed selector; distinct = distinct texts')
 TRUSTED_BASE = ['Lean 4.33 kernel', 'axioms ⊆ {propext, Classical.choice, Quot.sound}', 'JSON glue (Gin/Drv/ParseDom)',
                 'harness parsedom.py (tokenize and per-token literal_eval are CPython\'s)']
@@ -22,8 +23,9 @@ EXPLANATION = ('Lean theorems about the statement parser mirror (selector well-f
                'splitting) and the value-level completeness theorem of C02 + differential run of the mirror on Python\'s '
                'tokens against config_parser.ConfigParser for every layout + layout-pair oracle.')
 
-SELS = ['f', 'm.f', 'pkg.mod.Cls', 'a_b.c1']
-SCOPES = ['', 'a', 'a/b', 'train/eval_2']
+# names that spell a keyword are names like any other when '=' / ':' / '.' follows
+SELS = ['f', 'm.f', 'pkg.mod.Cls', 'a_b.c1', 'include', 'from', 'import', 'include.f']
+SCOPES = ['', 'a', 'a/b', 'train/eval_2', 'a/b/c_3/d', 'include', 'from/import']
 ARGS = ['x', 'lr', 'num_layers']
 MODULES = ['os', 'os.path', 'pkg.sub.mod', 'a']
 
@@ -44,7 +46,7 @@ def gen_specs(rng):
     if r < 0.5:
       specs.append(('bind', rng.choice(SCOPES), rng.choice(SELS), rng.choice(ARGS), gen_value_text(rng)))
     elif r < 0.62:
-      specs.append(('macro', rng.choice(['m1', 'batch_size', 'a/b']), gen_value_text(rng)))
+      specs.append(('macro', rng.choice(['m1', 'batch_size', 'a/b', 'include', 'import', 'from', 'a/include', 'a/b/c/m2']), gen_value_text(rng)))
     elif r < 0.78:
       mod = rng.choice(MODULES)
       form = rng.choice(['import', 'import_as', 'from', 'from_as'])
@@ -140,11 +142,37 @@ BAD_SELECTORS = ['a /b.x = 1', 'a/ b.x = 1', 'a/b .x = 1', 'a/b. x = 1', 'a//b.x
                  'import a. b', 'from a import b.c', 'import a as b.c', 'from a. b import c', 'from a/b import c', 'from a/b import c as d', 'import a/b.c', 'import a as b/c', 'a.b:\n x = 1\n  y = 2\n']
 
 
+def gen_bad_selector(rng):
+  """A scoped name of depth 1-4 with one defect in one component (any position), in one of the places a
+  scoped name may stand."""
+  depth = rng.randint(1, 4)
+  comps = [rng.choice(['a', 'b_1', 'train', 'Eval2']) for _ in range(depth)]
+  i = rng.randrange(depth)
+  c = comps[i]
+  place = rng.choice(['bind', 'macro', 'block', 'ref', 'mref', 'eref'])
+  # a scope of a reference or macro may be a dotted name (the parser allows periods there); a scope of a
+  # binding key, macro definition or block header may not
+  dotted = [c + '.' + c, 'dotted.' + c] if place in ('bind', 'macro', 'block') else []
+  comps[i] = rng.choice(dotted + dotted + ['', c + '-x', '1' + c, c + '.', '.' + c, c + ' ' + c])
+  scope = '/'.join(comps)
+  if place == 'bind':
+    return scope + '/' + rng.choice(['f', 'm.f']) + '.x = 1'
+  if place == 'macro':
+    return scope + '/M = 1'
+  if place == 'block':
+    return scope + '/f:\n  x = 1'
+  if place == 'ref':
+    return 'f.x = @' + scope + '/g'
+  if place == 'eref':
+    return 'f.x = [1, @' + scope + '/g()]'
+  return 'f.x = %' + scope + '/M'
+
+
 def gen_cases(rng, tier, boost=1):
   n = (700 if tier == 'quick' else 30000) * boost
   for k in range(n):
     if k % 6 == 5:
-      bad = rng.choice(BAD_SELECTORS)
+      bad = rng.choice(BAD_SELECTORS) if rng.random() < 0.5 else gen_bad_selector(rng)
       prefix = 'ok.y = 2\n' if rng.random() < 0.5 else ''
       yield {'dom': 'parse', 'kind': 'bad', 'texts': [prefix + bad + '\n'], 'nprefix': 1 if prefix else 0}
     else:
